@@ -271,7 +271,12 @@ impl StdInWorker for ScanStdin {
   ) -> Result<Vec<P::Processed>> {
     use ast_grep_core::Language;
     let lang = self.rules[0].language;
-    let combined = CombinedScan::new(self.rules.iter().collect());
+    // a rule that is turned off reports nothing, exactly as when files are scanned
+    let active = self
+      .rules
+      .iter()
+      .filter(|r| !matches!(r.severity, Severity::Off));
+    let combined = CombinedScan::new(active.collect());
     let grep = lang.ast_grep(src);
     let path = Path::new("STDIN");
     let file_content = grep.source().to_string();
